@@ -557,6 +557,36 @@ def run(ck: Check):
             reqs.append(f"fmt {t} {d}"); reals.append(cps(axml.format_value(t, d)))
     ck.compare("format-value", reqs, reals, drv.ask(reqs))
 
+    # ---- what lxml accepts as a namespace URI: the model's `safeUri` claims "certainly accepted"; whenever it says so lxml must
+    # accept (as element namespace and in an nsmap); where the model says unsafe it reports `unmodelled:uri` and nothing is claimed
+    from lxml import etree as _et
+    uris, alpha = [], "abzAZ09./:-_"
+    base = list(axmlgen.URIS) + ["http://schemas.androi:.com/apk/res/android", "http://a:80/b", "x://", "a:", "a:/b", "a/b:c", "http:///x"]
+    for i in range(4000 if ck.quick else 150000):
+        r = rng.random()
+        if r < 0.3:
+            u = list(rng.choice(base))
+            for _ in range(rng.choice((1, 1, 2))):
+                u[rng.randrange(len(u))] = rng.choice(alpha)
+            u = "".join(u)
+        else:
+            u = rng.choice(("", "", "http://", "urn:", "a:", "x://a")) + "".join(rng.choice(alpha) for _ in range(rng.randrange(1, 9)))
+        uris.append(u)
+    uris += base
+    reqs = ["safeuri " + cps(u) for u in uris]
+    mod = drv.ask(reqs)
+    rq, a, b = [], [], []
+    for u, q, mm in zip(uris, reqs, mod):
+        if mm != "safe":
+            continue
+        try:
+            _et.Element("{%s}a" % u, nsmap={"p": u}); real = "safe"
+        except ValueError:
+            real = "rejected-by-lxml"
+        rq.append(q); a.append(real); b.append(mm)
+    ck.compare("lxml-uri", rq, a, b)
+    ck.cover(dist={"uri_candidates": len(uris), "uri_model_safe": len(rq)})
+
     # ---- shipped files
     files = shipped_files()
     if not ck.quick or True:
@@ -572,6 +602,9 @@ def run(ck: Check):
     ck.assumptions.append("lxml (Element, set, text/tail, tostring), CPython's utf-8 / utf-16-le decoders with errors='replace', re and "
                           "str methods are modelled, not verified; float / dimension / fraction renderings are abstract here (C27)")
     ck.notes.append("model describes the tree with fixes/C26-text-chunks.diff and fixes/C26-utf16-bom.diff applied")
+    ck.notes.append("namespace URIs: the model's safeUri (what lxml certainly accepts) requires `scheme:rest` with a non-empty authority "
+                    "without ':' after '//' (lxml / libxml2 reject e.g. http://host:.com/); anything else is reported unmodelled:uri; the "
+                    "stream lxml-uri ties the predicate to lxml (model safe => lxml accepts)")
     ck.notes.append("attribute value strings are proved against Spec/AxmlTree.lean (imports nothing): attr_value_spec, axml_roundtrip_spec "
                     "(documents without duplicate attributes); with duplicate attributes the expected tree of axml_roundtrip uses the code's own "
                     "overwrite policy; non-ASCII names, re-bound prefixes, comments and styles are outside the proved domain (tie only)")
